@@ -77,6 +77,19 @@ Theorem C18_unsub_silent : forall (A : Type) (s : st A) id ops,
 Proof. exact @unsub_silent. Qed.
 Print Assumptions C18_unsub_silent.
 
+(* "... or its other followers" (for observers that are handed lines directly): whatever OTHER observers
+   do - subscribe, re-subscribe, unsubscribe, read ranges, in any number and order - observer [id] receives
+   the same stream; it depends only on the lines written. *)
+Theorem C18_followers_independent : forall (A : Type) (s : st A) id (ops ops' : list (op A)),
+  NoDup (active s) ->
+  forallb (fun o => negb (touches id o)) ops = true ->
+  forallb (fun o => negb (touches id o)) ops' = true ->
+  written ops = written ops' ->
+  stream_of id (streams (run s ops)) = stream_of id (streams (run s ops')) /\
+  mem id (active (run s ops)) = mem id (active (run s ops')).
+Proof. exact @followers_independent. Qed.
+Print Assumptions C18_followers_independent.
+
 (* "a follower that stops reading never holds up the process it follows": FALSE of the code for the
    websocket follower (bounded channel filled under the buffer mutex) - finding F29. *)
 Theorem C18_nonblocking_refuted :
